@@ -43,7 +43,7 @@ func goGet(x jp.Expr, data any) (o out) {
 	return
 }
 
-func goFirst(x jp.Expr, data any) (o out) {
+func goFirst(x jp.Expr, data any, ordered bool) (o out) {
 	defer guard(&o)
 	v, found := x.FirstFound(data)
 	o.found = found
@@ -52,7 +52,7 @@ func goFirst(x jp.Expr, data any) (o out) {
 	}
 	// First is FirstFound without the flag
 	f := x.First(data)
-	if found && canonOf(f) != o.val || !found && f != nil {
+	if ordered && found && canonOf(f) != o.val || !found && f != nil {
 		o.bad = "First differs from FirstFound"
 	}
 	return
